@@ -362,6 +362,14 @@ class FlatColumn:
         if dic.get("element_type") == OrsoTypes._MISSING_TYPE.value:
             # so is an untyped element type
             dic = {**dic, "element_type": OrsoTypes._MISSING_TYPE}
+        if (
+            dic.get("type") == OrsoTypes.ARRAY.value
+            and "element_type" in dic
+            and dic["element_type"] is None
+        ):
+            # an ARRAY column without an element type is written with a null element type; read as
+            # a type name, the bare 'ARRAY' would default the element type to VARCHAR
+            dic = {**dic, "type": OrsoTypes.ARRAY}
         return cls(**dic)
 
 
